@@ -45,6 +45,12 @@ CHECKS = {
  "C11": ("exploration", "bounded-exhaustive enumeration of formatter configurations (every max_line_length 1..120, 2^6 option product) and single-point layout deviations over corpus files, on the real formatter",
          "For every (text, configuration) of the enumerated space the output is re-parsed, re-formatted and compared token-by-token (comments word-wise) with the input; under sort/merge the comparison is on multisets of expanded use leaves and items. The width sweep is exhaustive because break-point choice is a function of the width - the place where oscillation hides.",
          "Comments compared word-wise (re-wrapping is layout); inputs with parse diagnostics skipped; layout deviations bound 1 (2 in thorough for tiny seeds).", "DESIGN.md §3 C11"),
+ "C12": ("model_checking", "explicit-state exploration of query histories (order of first execution of top-level queries x executing thread) on the real database by fork-snapshot DFS, invariant = byte-identical artefacts",
+         "Every sequence of distinct tasks up to the depth bound, each on the main or a second thread, is executed on a copy-on-write image of the real RootDatabase; after each history the diagnostics, named and canonical Sierra and CASM must be byte-identical to the no-history baseline. The model is the implementation itself (no abstraction to drift). Free-running rayon pools are run as a labelled, non-deciding sample.",
+         "Schedules are abstracted to whole-query order + thread; no preemption inside a query (salsa under shuttle is infeasible, DESIGN §1).", "DESIGN.md §3 C12"),
+ "C13": ("model_checking", "explicit-state exploration of edit/query histories over a flag-rendered project on the real database by fork-snapshot DFS, invariant = incremental output equals from-scratch output",
+         "States are project contents (flag vectors), transitions are (edit, query) steps executed on the live salsa database in a forked process image; every step sequence up to the depth bound from the initial and from every single-flag start is explored, and at every queried node diagnostics (with positions) and Sierra must equal those of a database that never saw another version (memoised per content, bound to a brand-new database on the start contents).",
+         "fork() copy-on-write; single-threaded workers; edits are whole-flag flips of the templates listed in the rule.", "DESIGN.md §3 C13"),
  "C14": ("exploration", "exhaustive single-point mutation enumeration of corpus Sierra programs and serialized classes, executed on the real registry/metadata/compile pipeline",
          "Every mutant of every corpus program (and every position x boundary value of its felt serialization) runs through ProgramRegistryInfo::new, calc_metadata (both solver families), compile, extract_sierra_program and CasmContractClass::from_contract_class under catch_unwind + fatal-signal handler + address-space cap + watchdog. Findings are keyed by panic site.",
          "Corpus programs are seeds; multi-point mutants only in the thorough tier for small programs; 4 GiB address-space cap stands for 'allocates without bound'.", "DESIGN.md §3 C14"),
